@@ -74,7 +74,8 @@ def topology():
         ch = top.add_chain()
         # names that happen to coincide with identifiers the implementation uses internally when it compiles a selection
         r = top.add_residue("atom", ch, resSeq=840)
-        for nm in ("re", "atom", "topology", "self"):
+        # ... and lower-case names that begin like an operator word (and, or, lt, le, eq, ne, ge, gt, not, to)
+        for nm in ("re", "atom", "topology", "self", "nex", "orange", "left", "gtp", "andy", "eq1", "notch", "tom"):
             top.add_atom(nm, _el.carbon, r)
         ch = top.add_chain()
         for k_, rn in enumerate(("WAT", "SOL", "TIP3", "H2O")):       # the other conventional names of a water residue
@@ -114,7 +115,7 @@ def topology():
 def leaf_strategy():
     _top, _attr, pool = topology()
 
-    SPECIAL = {"re", "atom", "topology", "self", "O5'", "C5'", "H5''", "C2'", "O2*", "ACE", "NME", "WAT", "SOL", "TIP3", "H2O", "G", "DA5"}
+    SPECIAL = {"re", "atom", "topology", "self", "nex", "orange", "left", "gtp", "andy", "eq1", "notch", "tom", "O5'", "C5'", "H5''", "C2'", "O2*", "ACE", "NME", "WAT", "SOL", "TIP3", "H2O", "G", "DA5"}
 
     def val(k):
         sp = [v for v in pool[k] if v in SPECIAL]
@@ -170,7 +171,7 @@ def _tolist(t):
 # ('name resname' and 'resid 1 to' are not in this list: the documentation does not reserve keywords or `to` as literals, so they
 #  are legitimately read as an implicit equality / implicit list)
 MALFORMED = ["unbalanced-open", "unbalanced-close", "dangling-binary", "leading-binary", "adjacent-binary", "empty-parens", "lone-literal",
-             "operator-without-operand", "illegal-character", "empty"]
+             "operator-without-operand", "illegal-character", "empty", "glued-keyword", "glued-number", "glued-flag"]
 
 
 def enumerate_cases(tier):
@@ -317,6 +318,10 @@ def malformed_text(t, how):
         "lone-literal": "CA",
         "operator-without-operand": "mass >",
         "illegal-character": a + " and name $#@",
+        # a keyword is a whole word: glued to further word characters it is no keyword any more
+        "glued-keyword": "named CA",
+        "glued-number": a + " and resid5",
+        "glued-flag": "proteinx and " + a,
         "double-keyword": "name resname",
         "dangling-to": "resid 1 to",
         "empty": "",
